@@ -62,3 +62,16 @@ func init() {
 		Assume: []string{"race detector's bounded shadow history can miss a race, it cannot invent one", "statement-level yields only in the listed files; elsewhere preemption happens at lock/once/atomic/network points"},
 	}
 }
+
+func init() {
+	realAll := []string{"all gmsm code involved in the scenario: a scratch copy of /repo's working tree, instrumented by /verif/rewrite (locks, once, atomics, time.Now), built for this run"}
+	props["C15"] = propCfg{
+		Level: "exploration",
+		Quick: tierCfg{Runs: 40000, Deadline: 70, RunMS: 60000, MinimiseS: 40},
+		Thor:  tierCfg{Runs: 6000000, Deadline: 1500, RunMS: 60000, MinimiseS: 240},
+		Rule:  "each run puts one gmtls endpoint (client; server in GMSSL-only, auto-switch or TLS mode; with or without client authentication; both GM suites) against the scripted reference peer on simnet and draws a script: honest; 1-3 wire deviations at drawn message indices (wrong type, duplicate, omit, truncation with/without length adjustment, rewritten length/count bytes, rewritten handshake length, inserted application data / ChangeCipherSpec / unknown record / alerts, end of stream before or inside any record, stall, oversized record, wrong record version, warning alerts, empty records; legal: fragmentation, coalescing); hello-level content (version 0x0000..0x0400, suite lists, compression, unknown extensions; ServerHello version/suite/compression; certificate lists incl. non-EC keys); or a stall with a virtual-time read deadline. The reference peer keeps its honest transcript, so any deviation that changes handshake bytes must make the endpoint fail. Oracle: error and never complete for violations, completion + data for legal variations, no panic, endpoint returns once the peer's stream ended, timeout error at the virtual deadline. distinct_nontrivial = distinct signatures (role, script text, deviation kinds and positions) among non-honest runs.",
+		Real:  realAll,
+		Stubs: []string{"simnet (network)", "virtual clock", "entropy streams", "fixture PKI", "reftls scripted peer (independent GM/T 0024 client and server)"},
+		Assume: []string{"reftls endpoints interoperate with unmodified gmtls in both roles (honest scripts are part of every batch and must complete)"},
+	}
+}
